@@ -443,6 +443,12 @@ pub fn check(case: &Case, avoid: Avoid) -> Outcome {
         let band_referenced = match op {
             Op::DeleteRows { row, n, .. } => nodes::any_formula_reads_rows(um.get_model(), 0, *row, *n),
             Op::DeleteCols { col, n, .. } => nodes::any_formula_reads_columns(um.get_model(), 0, *col, *n),
+            // the same entry: range_clear_contents records the spill cells it clears as old
+            // values; its undo puts them back whatever their anchor has become meanwhile
+            Op::ClearContents(a) | Op::ClearAll(a) => {
+                let ws = &um.get_model().workbook.worksheets[0];
+                (a.row..a.row + a.h).any(|r| (a.col..a.col + a.w).any(|c| matches!(ws.cell(r, c), Some(Cell::SpillCell { .. }))))
+            }
             _ => false,
         };
         if avoid.undo_delete && matches!(op, Op::Undo) && undo_stack.last().map(|x| x.1).unwrap_or(false) {
